@@ -375,8 +375,20 @@ func (h *harness) crashcheck(k int) (event, error) {
 			mat[m] = true
 		}
 		rh.world = map[uint64]*flowTruth{}
+		// after a crash the converter cache may hold output for a stream whose data an un-acknowledged import had
+		// already rewritten on disk (no property covers that): answers that depend on converter output are left
+		// undetermined here
+		rh.convInFlight = true
 		for _, o := range robs {
-			rh.world[o.id] = &flowTruth{cport: o.cport, sport: o.sport, cbytes: o.cbytes, sbytes: o.sbytes, cdata: o.cdata, sdata: o.sdata}
+			ft := &flowTruth{cport: o.cport, sport: o.sport, cbytes: o.cbytes, sbytes: o.sbytes, cdata: o.cdata, sdata: o.sdata}
+			for _, ids := range rst.Cached {
+				for _, cid := range ids {
+					if cid == o.id {
+						ft.cached = true
+					}
+				}
+			}
+			rh.world[o.id] = ft
 		}
 		for _, o := range robs {
 			ft := rh.world[o.id]
